@@ -816,6 +816,9 @@ class Mesh:
         boundaries = {}
         for k, v in self._boundaries.items():
             facets = np.asarray(v)
+            if len(facets) == 0:
+                boundaries[k] = v
+                continue
             ori = getattr(v, 'ori', None)
             cells = raw.f2t[0 if ori is None else ori, facets]
             ori = 1 * (self.f2t[1, facets] == cells)
